@@ -14,8 +14,9 @@ from pathlib import Path
 from . import tlc
 from .tlc import MachineryError, ROOT, WORK
 
-EVIDENCE = ROOT / "evidence"
-REPLAYS = ROOT / "replays"
+_OUT = Path(os.environ["VERIF_OUT"]) if os.environ.get("VERIF_OUT") else ROOT   # scratch output for mutation try-outs
+EVIDENCE = _OUT / "evidence"
+REPLAYS = _OUT / "replays"
 KNOWN = ROOT / "KNOWN_FINDINGS.json"
 INT_MAX = 2 ** 31 - 1
 BASE = 10_000
